@@ -23,4 +23,4 @@ run_one() {
 }
 export -f run_one
 printf '%s\n' "${dirs[@]}" | xargs -P 4 -I{} bash -c 'run_one {}'
-rm -rf "$base"
+rmdir "$base" 2>/dev/null || true
